@@ -26,6 +26,7 @@ import (
 	"github.com/google/uuid"
 
 	"go.6river.tech/mmmbbb/ent"
+	"go.6river.tech/mmmbbb/ent/snapshot"
 	"go.6river.tech/mmmbbb/ent/topic"
 	"go.6river.tech/mmmbbb/logging"
 )
@@ -73,6 +74,12 @@ func (a *PruneDeletedTopics) Execute(ctx context.Context, tx *ent.Tx) error {
 			Msg("pruning deleted topic")
 	}
 
+	// a snapshot can be created on a subscription whose topic is already deleted;
+	// like DeleteTopic, take the topic's snapshots with it, else the foreign key
+	// from snapshots fails this (and every later) run
+	if _, err := tx.Snapshot.Delete().Where(snapshot.TopicIDIn(ids...)).Exec(ctx); err != nil {
+		return err
+	}
 	numDeleted, err := tx.Topic.Delete().Where(topic.IDIn(ids...)).Exec(ctx)
 	if err != nil {
 		return err
